@@ -180,6 +180,118 @@ func (r *c01run) mDialogue(v int, first []byte, maxSteps int) {
 	}
 }
 
+// toVictim delivers an attacker-made message and returns the victim's replies (taken off the network).
+func (r *c01run) toVictim(v int, wire []byte) [][]byte {
+	w := r.s.W
+	before := len(w.Q[v])
+	w.Receive(v, wire)
+	r.noteSig(wire)
+	r.invariant("a message of the degenerate-value attacker")
+	var outs [][]byte
+	for _, o := range w.Q[v][before:] {
+		outs = append(outs, o.Data)
+	}
+	w.Q[v] = w.Q[v][:before]
+	return outs
+}
+
+func findType(msgs [][]byte, typ byte) ([]byte, ref.Header) {
+	for _, m := range msgs {
+		if raw, ok := ref.Dearmor(m); ok {
+			if h, err := ref.ParseHeader(raw); err == nil && h.Type == typ {
+				return raw[h.Len:], h
+			}
+		}
+	}
+	return nil, ref.Header{}
+}
+
+// mDegenerate: an attacker who has no exponent at all runs the exchange with a degenerate DH value
+// (1, p-1, 0, p+1) and guesses the resulting shared secret (1 or p-1). With twoStep it first sends the
+// degenerate value (which must be refused without trace) and then a harmless in-range one.
+func (r *c01run) mDegenerate(v int, op SOp) {
+	vals := []*big.Int{big.NewInt(1), new(big.Int).Sub(ref.P, big.NewInt(1)), big.NewInt(0), new(big.Int).Add(ref.P, big.NewInt(1))}
+	deg := vals[op.X%4]
+	guesses := []*big.Int{big.NewInt(1), new(big.Int).Sub(ref.P, big.NewInt(1)), big.NewInt(0)}
+	key := r.m.Key
+	ver := uint16(r.sc.Cfg.V)
+	mtag := uint32(0x7000 + op.X)
+	vtag := r.s.W.P[v].C.GetOurInstanceTag()
+	wrap := func(typ byte, body []byte) []byte {
+		return ref.Armor(append(ref.PutHeader(ver, typ, mtag, vtag), body...))
+	}
+	rnd := func(n int) []byte { b := make([]byte, n); r.mRand.Read(b); return append([]byte{}, b...) }
+	if op.F%2 == 0 {
+		// attacker sends the commit: g^x := deg
+		rr := rnd(16)
+		outs := r.toVictim(v, wrap(ref.TypeDHCommit, ref.BuildDHCommit(rr, deg)))
+		body, _ := findType(outs, ref.TypeDHKey)
+		if body == nil {
+			return
+		}
+		k, _, err := ref.ParseDHKey(body)
+		if err != nil {
+			return
+		}
+		for _, g := range guesses {
+			keys := ref.DeriveAKE(g)
+			b, err := ref.BuildRevealSig(keys, rr, deg, k.Gy, key, key.PubBytes(), 1, &rndR{rnd})
+			if err != nil {
+				return
+			}
+			r.toVictim(v, wrap(ref.TypeRevealSig, b))
+		}
+		return
+	}
+	// attacker answers the victim's commit: g^y := deg
+	outs := r.toVictim(v, []byte(fmt.Sprintf("?OTRv%d?", ver)))
+	cb, h := findType(outs, ref.TypeDHCommit)
+	if cb == nil {
+		return
+	}
+	vtag = h.Sender
+	commit, _, err := ref.ParseDHCommit(cb)
+	if err != nil {
+		return
+	}
+	outs = r.toVictim(v, wrap(ref.TypeDHKey, ref.BuildDHKey(deg)))
+	if op.L%2 == 1 {
+		y := rnd(40)
+		outs = append(outs, r.toVictim(v, wrap(ref.TypeDHKey, ref.BuildDHKey(ref.Pub(y))))...)
+	}
+	rb, _ := findType(outs, ref.TypeRevealSig)
+	if rb == nil {
+		return
+	}
+	rv, _, err := ref.ParseRevealSig(rb)
+	if err != nil {
+		return
+	}
+	gx, err := ref.OpenCommit(commit, rv.R)
+	if err != nil {
+		return
+	}
+	for _, g := range guesses {
+		keys := ref.DeriveAKE(g)
+		b, err := ref.BuildSignature(keys, deg, gx, key, key.PubBytes(), 1, &rndR{rnd})
+		if err != nil {
+			return
+		}
+		r.toVictim(v, wrap(ref.TypeSignature, b))
+	}
+}
+
+type rndR struct{ f func(int) []byte }
+
+func (r *rndR) Read(b []byte) (int, error) {
+	if len(b) == 1 {
+		b[0] = 0x55
+		return 1, nil
+	}
+	copy(b, r.f(len(b)))
+	return len(b), nil
+}
+
 func (r *c01run) syncM() {
 	for ; r.nMExp < len(r.m.Exps); r.nMExp++ {
 		r.s.Obs.LearnExp(2, r.m.Exps[r.nMExp])
@@ -374,6 +486,10 @@ func runC01(sc *C01Script) *sim.Outcome {
 			r.touched = true
 			r.mDialogue(who, first, steps)
 			o.Class(fmt.Sprintf("impersonate-%s-claim%d-%s", role, claim, map[bool]string{true: "victim-encrypted", false: "victim-plain"}[w.P[who].C.IsEncrypted()]))
+		case "mdegen":
+			r.touched = true
+			r.mDegenerate(who, op)
+			o.Class(fmt.Sprintf("degenerate-attacker-role%d-val%d-twostep%v", op.F%2, op.X%4, op.L%2 == 1))
 		case "flush":
 			for n := 0; n < 400 && w.Pending() > 0 && o.Violation == ""; n++ {
 				d := n % 2
@@ -412,11 +528,11 @@ func runC01(sc *C01Script) *sim.Outcome {
 	return o
 }
 
-func init() { reg("C01attack", runC01); reg("C01sweep", runC01Sweep) }
+func init() { reg("C01attack", runC01); reg("C01degenerate", runC01); reg("C01sweep", runC01Sweep) }
 
 func TestProp_C01_Attack(t *testing.T) {
 	defer sim.MarkCompleted("C01attack", false)
-	kinds := []string{"start", "start", "dl", "dl", "dl", "dl", "dl", "dup", "drop", "mut", "mut", "mut", "mut", "injrec", "mrun", "mrun", "mpartial", "flush", "flush"}
+	kinds := []string{"start", "start", "dl", "dl", "dl", "dl", "dl", "dup", "drop", "mut", "mut", "mut", "mut", "injrec", "mrun", "mrun", "mpartial", "mdegen", "mdegen", "flush", "flush"}
 	rapid.Check(t, func(rt *rapid.T) {
 		sc := &C01Script{Cfg: genSessCfg(rt), KeyM: rapid.IntRange(0, 5).Draw(rt, "km")}
 		sc.Cfg.FragA, sc.Cfg.FragB = 0, 0
@@ -438,6 +554,10 @@ func TestProp_C01_Attack(t *testing.T) {
 				op.F = rapid.IntRange(0, 255).Draw(rt, "val")
 			case "injrec":
 				op.I = rapid.IntRange(0, 8).Draw(rt, "i")
+			case "mdegen":
+				op.X = rapid.IntRange(0, 3).Draw(rt, "val")
+				op.F = rapid.IntRange(0, 1).Draw(rt, "role")
+				op.L = rapid.IntRange(0, 1).Draw(rt, "twostep")
 			case "mrun", "mpartial":
 				op.X = rapid.IntRange(0, 2).Draw(rt, "claim")
 				op.F = rapid.IntRange(0, 1).Draw(rt, "role")
@@ -560,4 +680,34 @@ func TestProp_C01_Sweep(t *testing.T) {
 		}
 	}
 	sim.MarkCompleted("C01sweep", sim.Thorough())
+}
+
+// TestProp_C01_Degenerate enumerates the degenerate-value attacker: 4 values x 2 roles x one/two step x
+// victim plaintext/encrypted x both versions.
+func TestProp_C01_Degenerate(t *testing.T) {
+	si, sn := sim.Shard()
+	idx := 0
+	for _, v := range []int{3, 2} {
+		for val := 0; val < 4; val++ {
+			for role := 0; role < 2; role++ {
+				for two := 0; two < 2; two++ {
+					for _, enc := range []bool{false, true} {
+						for vic := 0; vic < 2; vic++ {
+							idx++
+							if idx%sn != si {
+								continue
+							}
+							sc := &C01Script{Cfg: SessCfg{V: v, SeedA: 700, SeedB: 801, KeyA: 0, KeyB: 3}, KeyM: 5}
+							if enc {
+								sc.Ops = append(sc.Ops, SOp{K: "start"}, SOp{K: "flush"})
+							}
+							sc.Ops = append(sc.Ops, SOp{K: "mdegen", W: vic, X: val, F: role, L: two}, SOp{K: "flush"})
+							sim.Judge(t, "C01degenerate", sc)
+						}
+					}
+				}
+			}
+		}
+	}
+	sim.MarkCompleted("C01degenerate", true)
 }
